@@ -1,8 +1,19 @@
 // Harness for C13 (retries, idempotence, speculative execution): a real Session on the in-memory
 // cluster with several scripted hosts, a scripted host-selection policy (public interface) that offers
-// the hosts in a chosen order, per-attempt fates scripted by a global attempt counter, built-in and
-// table-driven retry policies. Observed: which host received each attempt, in order, and the final
-// error class; compared with the Lean model of queryExecutor.do.
+// the hosts in a chosen order, per-request fates scripted by a global request counter, built-in and
+// table-driven retry policies. The executor is driven through the PUBLIC API with both statement kinds
+// (*Query via Session.Query(...).Exec/Iter, *Batch logged/unlogged/counter via Session.ExecuteBatch; batches
+// from Session.NewBatch and from the deprecated package-level NewBatch), with and without observers (session
+// level, statement level), retry policy at session or statement level, speculative policy, idempotence flag,
+// context kinds (none, cancelable, deadline, already done), initial consistency, and re-execution of the same
+// statement object. Observed: which host received each request with which consistency, in order;
+// Attempts()/Latency()/GetConsistency() of the statement afterwards; what the observer was told per attempt
+// (attempt number, host, error class, per-host attempt metrics); the final error class. Compared with the
+// Lean model of queryExecutor.do and of the attempt accounting.
+//
+// All decisions are event-ordered: servers answer (or cancel the context, or close the connection) when the
+// request arrives; speculative runs hold every request until the harness releases one. The only clocks are the
+// driver's own request timeout for the "never answered" fate (3 s, at most one per scenario) and watchdogs.
 package main
 
 import (
@@ -10,6 +21,7 @@ import (
 	"errors"
 	"fmt"
 	"os"
+	"runtime"
 	"strings"
 	"sync"
 	"sync/atomic"
@@ -20,6 +32,14 @@ import (
 	"verifharness/sess"
 	"verifharness/vh"
 )
+
+const watchdog = 30 * time.Second
+
+// hung counts statements that produced no result within the watchdog; once one has, the scenarios not yet started
+// are skipped (the violation is already established and every further hang costs a full watchdog period).
+var hung int64
+
+// ---------------------------------------------------------------- scripted host selection policy
 
 type scriptPolicy struct {
 	mu    sync.Mutex
@@ -40,6 +60,15 @@ func (p *scriptPolicy) KeyspaceChanged(gocql.KeyspaceUpdateEvent) {}
 func (p *scriptPolicy) Init(*gocql.Session)                       {}
 func (p *scriptPolicy) IsLocal(*gocql.HostInfo) bool              { return true }
 
+// lenient is a ConvictionPolicy (public interface) that does not convict the hosts in `spare`: such a host stays
+// "up" although every dial fails, so its pool exists but has no connection.
+type lenient struct{ spare map[string]bool }
+
+func (l *lenient) AddFailure(_ error, h *gocql.HostInfo) bool {
+	return !l.spare[h.ConnectAddress().String()]
+}
+func (l *lenient) Reset(*gocql.HostInfo) {}
+
 type sel struct{ h *gocql.HostInfo }
 
 func (s sel) Info() *gocql.HostInfo { return s.h }
@@ -56,12 +85,14 @@ func (p *scriptPolicy) Pick(gocql.ExecutableQuery) gocql.NextHost {
 			if h != nil {
 				return sel{h}
 			}
-			// a host the session never learned about cannot be offered; the model line lists it as conn=0
+			// not a host of the cluster: a SelectedHost without HostInfo (the model line lists it as up=0)
 			return sel{nil}
 		}
 		return nil
 	}
 }
+
+// ---------------------------------------------------------------- table-driven retry policy
 
 type tablePolicy struct {
 	limit int
@@ -120,37 +151,152 @@ func errKind(err error) int {
 	return 9
 }
 
-func fateBody(k int) (byte, []byte, bool) {
-	switch k {
-	case 1:
+// resTok renders an attempt's error the way the model renders a Res.
+func resTok(err error) string {
+	switch {
+	case err == nil:
+		return "ok"
+	case err == context.Canceled || err == context.DeadlineExceeded:
+		return "ctx"
+	}
+	return fmt.Sprintf("e%d", errKind(err))
+}
+
+// fateBody: the server's answer for a fate token e<kind>[variant]; variants of one kind differ in fields the
+// built-in policies must treat alike.
+func fateBody(f string) (byte, []byte, bool) {
+	wt := func(recv int, typ string) (byte, []byte, bool) {
+		return memcluster.OpError, memcluster.ErrorBody(memcluster.ErrWriteTO, "wt", memcluster.WriteTimeoutExtra(1, recv, 2, typ)), true
+	}
+	switch f {
+	case "e1":
 		return memcluster.OpError, memcluster.ErrorBody(memcluster.ErrUnavailable, "unavailable", memcluster.UnavailableExtra(1, 2, 1)), true
-	case 2:
+	case "e1b":
+		return memcluster.OpError, memcluster.ErrorBody(memcluster.ErrUnavailable, "unavailable", memcluster.UnavailableExtra(4, 3, 2)), true
+	case "e2":
 		return memcluster.OpError, memcluster.ErrorBody(memcluster.ErrUnavailable, "unavailable", memcluster.UnavailableExtra(1, 2, 0)), true
-	case 3:
-		return memcluster.OpError, memcluster.ErrorBody(memcluster.ErrWriteTO, "wt", memcluster.WriteTimeoutExtra(1, 1, 2, "SIMPLE")), true
-	case 4:
-		return memcluster.OpError, memcluster.ErrorBody(memcluster.ErrWriteTO, "wt", memcluster.WriteTimeoutExtra(1, 0, 2, "BATCH")), true
-	case 5:
-		return memcluster.OpError, memcluster.ErrorBody(memcluster.ErrWriteTO, "wt", memcluster.WriteTimeoutExtra(1, 0, 2, "UNLOGGED_BATCH")), true
-	case 6:
-		return memcluster.OpError, memcluster.ErrorBody(memcluster.ErrWriteTO, "wt", memcluster.WriteTimeoutExtra(1, 0, 2, "CAS")), true
-	case 7:
+	case "e3":
+		return wt(1, "SIMPLE")
+	case "e3b":
+		return wt(2, "COUNTER")
+	case "e3c":
+		return wt(1, "BATCH")
+	case "e4":
+		return wt(0, "BATCH")
+	case "e4b":
+		return wt(0, "SIMPLE")
+	case "e4c":
+		return wt(0, "COUNTER")
+	case "e5":
+		return wt(0, "UNLOGGED_BATCH")
+	case "e5b":
+		return wt(1, "UNLOGGED_BATCH")
+	case "e6":
+		return wt(0, "CAS")
+	case "e6b":
+		return wt(1, "BATCH_LOG")
+	case "e7":
 		return memcluster.OpError, memcluster.ErrorBody(memcluster.ErrReadTO, "rt", memcluster.ReadTimeoutExtra(1, 1, 2, 0)), true
-	case 8:
+	case "e7b":
+		return memcluster.OpError, memcluster.ErrorBody(memcluster.ErrReadTO, "rt", memcluster.ReadTimeoutExtra(4, 0, 2, 1)), true
+	case "e8":
 		return 0, nil, false // never answered: driver timeout
+	case "e9b":
+		return memcluster.OpError, memcluster.ErrorBody(memcluster.ErrServer, "server error", nil), true
+	case "e9c":
+		return memcluster.OpError, memcluster.ErrorBody(memcluster.ErrBootstrap, "bootstrapping", nil), true
 	default:
 		return memcluster.OpError, memcluster.ErrorBody(memcluster.ErrOverloaded, "overloaded", nil), true
 	}
 }
 
-type doScenario struct {
-	policy   string
-	hosts    []string // "id:up:conn" ; ip = 10.0.0.<id>
-	outcomes []string // o | l | e<k>
-	idem     bool
+var fateTokens = []string{"e1", "e1b", "e2", "e3", "e3b", "e3c", "e4", "e4b", "e4c", "e5", "e5b", "e6", "e6b", "e7", "e7b", "e9", "e9b", "e9c"}
+
+// ---------------------------------------------------------------- observers, contexts
+
+type recorder struct {
+	mu   sync.Mutex
+	recs []string
 }
 
-func (d doScenario) op() string {
+func (r *recorder) add(attempt int, host *gocql.HostInfo, err error, hostAttempts int) {
+	h := "?"
+	if host != nil {
+		h = strings.TrimPrefix(host.ConnectAddress().String(), "10.0.0.")
+	}
+	r.mu.Lock()
+	r.recs = append(r.recs, fmt.Sprintf("%d:%s:%s:%d", attempt, h, resTok(err), hostAttempts))
+	r.mu.Unlock()
+}
+func (r *recorder) ObserveQuery(_ context.Context, o gocql.ObservedQuery) {
+	ha := -1
+	if o.Metrics != nil {
+		ha = o.Metrics.Attempts
+	}
+	r.add(o.Attempt, o.Host, o.Err, ha)
+}
+func (r *recorder) ObserveBatch(_ context.Context, o gocql.ObservedBatch) {
+	ha := -1
+	if o.Metrics != nil {
+		ha = o.Metrics.Attempts
+	}
+	r.add(o.Attempt, o.Host, o.Err, ha)
+}
+func (r *recorder) take() []string {
+	r.mu.Lock()
+	defer r.mu.Unlock()
+	out := r.recs
+	r.recs = nil
+	return out
+}
+
+// deadlineCtx is a context whose deadline "passes" when the harness says so (event-ordered, no clock).
+type deadlineCtx struct {
+	done chan struct{}
+	mu   sync.Mutex
+	err  error
+}
+
+func newDeadlineCtx() *deadlineCtx                   { return &deadlineCtx{done: make(chan struct{})} }
+func (c *deadlineCtx) Deadline() (time.Time, bool)   { return time.Time{}, false }
+func (c *deadlineCtx) Done() <-chan struct{}         { return c.done }
+func (c *deadlineCtx) Value(interface{}) interface{} { return nil }
+func (c *deadlineCtx) Err() error {
+	c.mu.Lock()
+	defer c.mu.Unlock()
+	return c.err
+}
+func (c *deadlineCtx) expire() {
+	c.mu.Lock()
+	if c.err == nil {
+		c.err = context.DeadlineExceeded
+		close(c.done)
+	}
+	c.mu.Unlock()
+}
+
+// ---------------------------------------------------------------- scenario
+
+type scenario struct {
+	kind   string // q | bl | bu | bc
+	ctor   string // s: Session.Query / Session.NewBatch ; n: package-level NewBatch (no session defaults)
+	policy string
+	polAt  string // s: session level ; q: statement level ; o: statement level over a session-level decoy
+	obs    string // - | s | q | o
+	idem   string // 0 | 1 | m (batch with mixed entries: not idempotent)
+	sp     string // - | K : SimpleSpeculativeExecution{K, 1h}
+	ctx    string // - | c | d | p | pd
+	cons   int    // initial consistency
+	api    string // e: Exec / ExecuteBatch ; i: Iter().Close()
+	reps   int    // how often the same statement object is executed
+	// "id:up:conn", ip = 10.0.0.<id>: 1:1 reachable; 1:0 unreachable and not convicted, 1:c unreachable and convicted (either way:
+	// up, pool without a connection — without a control connection a conviction cannot mark the host down); 1:f rejected by
+	// the HostFilter yet offered by the policy (up, no pool); 0:0 the policy offers a SelectedHost without HostInfo
+	hosts    []string
+	outcomes []string // o | l | e<k>[variant] | e10
+}
+
+func (d scenario) op() string {
 	h, o := "-", "-"
 	if len(d.hosts) > 0 {
 		h = strings.Join(d.hosts, ",")
@@ -158,55 +304,245 @@ func (d doScenario) op() string {
 	if len(d.outcomes) > 0 {
 		o = strings.Join(d.outcomes, ",")
 	}
-	return fmt.Sprintf("do %s %s %s", d.policy, h, o)
+	return fmt.Sprintf("ex %s %s %s %s %s %s %s %s %d %s %d %s %s", d.kind, d.ctor, d.policy, d.polAt, d.obs, d.idem, d.sp, d.ctx,
+		d.cons, d.api, d.reps, h, o)
 }
 
-func parseDo(op string) doScenario {
+func parseEx(op string) (scenario, bool) {
 	w := strings.Fields(op)
-	d := doScenario{policy: w[1]}
-	if w[2] != "-" {
-		d.hosts = strings.Split(w[2], ",")
+	if len(w) != 14 {
+		return scenario{}, false
 	}
-	if w[3] != "-" {
-		d.outcomes = strings.Split(w[3], ",")
+	d := scenario{kind: w[1], ctor: w[2], policy: w[3], polAt: w[4], obs: w[5], idem: w[6], sp: w[7], ctx: w[8], api: w[10]}
+	fmt.Sscan(w[9], &d.cons)
+	fmt.Sscan(w[11], &d.reps)
+	if w[12] != "-" {
+		d.hosts = strings.Split(w[12], ",")
 	}
-	return d
+	if w[13] != "-" {
+		d.outcomes = strings.Split(w[13], ",")
+	}
+	return d, true
 }
 
-func runDo(d doScenario) string {
-	var ips, order []string
-	dead := map[string]bool{}
+func makePolicy(p string) gocql.RetryPolicy {
+	switch {
+	case strings.HasPrefix(p, "simple:"):
+		var n int
+		fmt.Sscanf(p, "simple:%d", &n)
+		return &gocql.SimpleRetryPolicy{NumRetries: n}
+	case strings.HasPrefix(p, "exp:"):
+		var n int
+		fmt.Sscanf(p, "exp:%d", &n)
+		return &gocql.ExponentialBackoffRetryPolicy{NumRetries: n, Min: time.Millisecond, Max: 2 * time.Millisecond}
+	case strings.HasPrefix(p, "down:"):
+		var lv []gocql.Consistency
+		if l := strings.TrimPrefix(p, "down:"); l != "-" {
+			for _, s := range strings.Split(l, ".") {
+				var c int
+				fmt.Sscan(s, &c)
+				lv = append(lv, gocql.Consistency(c))
+			}
+		}
+		return &gocql.DowngradingConsistencyRetryPolicy{ConsistencyLevelsToTry: lv}
+	case strings.HasPrefix(p, "custom:"):
+		f := strings.Split(p, ":")
+		var n int
+		fmt.Sscan(f[1], &n)
+		return &tablePolicy{limit: n, table: f[2]}
+	}
+	return nil
+}
+
+// stmt is the statement under test behind the part of the public API that *Query and *Batch share.
+type stmt struct {
+	q *gocql.Query
+	b *gocql.Batch
+	s *gocql.Session
+}
+
+func (x *stmt) exec(api string) error {
+	if x.q != nil {
+		if api == "i" {
+			return x.q.Iter().Close()
+		}
+		return x.q.Exec()
+	}
+	return x.s.ExecuteBatch(x.b)
+}
+func (x *stmt) attempts() int {
+	if x.q != nil {
+		return x.q.Attempts()
+	}
+	return x.b.Attempts()
+}
+func (x *stmt) latency() int64 {
+	if x.q != nil {
+		return x.q.Latency()
+	}
+	return x.b.Latency()
+}
+func (x *stmt) consistency() int {
+	if x.q != nil {
+		return int(x.q.GetConsistency())
+	}
+	return int(x.b.GetConsistency())
+}
+
+func batchType(kind string) gocql.BatchType {
+	switch kind {
+	case "bu":
+		return gocql.UnloggedBatch
+	case "bc":
+		return gocql.CounterBatch
+	}
+	return gocql.LoggedBatch
+}
+
+// buildStmt applies the scenario's statement-level settings through the public setters.
+func buildStmt(s *gocql.Session, d scenario, ctx context.Context, stmtObs *recorder) *stmt {
+	var sp gocql.SpeculativeExecutionPolicy
+	if d.sp != "-" {
+		var k int
+		fmt.Sscan(d.sp, &k)
+		// the delay never elapses: the statement takes the speculative code path (executions as goroutines,
+		// results channel) with the main execution only
+		sp = &gocql.SimpleSpeculativeExecution{NumAttempts: k, TimeoutDelay: time.Hour}
+	}
+	if d.kind == "q" {
+		q := s.Query("PING c13")
+		if ctx != nil {
+			q = q.WithContext(ctx)
+		}
+		q = q.Consistency(gocql.Consistency(d.cons))
+		if d.idem == "1" {
+			q = q.Idempotent(true)
+		}
+		if d.polAt != "s" {
+			q = q.RetryPolicy(makePolicy(d.policy))
+		}
+		if d.obs == "q" || d.obs == "o" {
+			q = q.Observer(stmtObs)
+		}
+		if sp != nil {
+			q = q.SetSpeculativeExecutionPolicy(sp)
+		}
+		return &stmt{q: q, s: s}
+	}
+	var b *gocql.Batch
+	if d.ctor == "n" {
+		b = gocql.NewBatch(batchType(d.kind))
+	} else {
+		b = s.NewBatch(batchType(d.kind))
+	}
+	if ctx != nil {
+		b = b.WithContext(ctx)
+	}
+	b.SetConsistency(gocql.Consistency(d.cons))
+	n := 1 + len(d.hosts)%3
+	if d.idem == "m" && n < 2 {
+		n = 2
+	}
+	for i := 0; i < n; i++ {
+		b.Query(fmt.Sprintf("UPDATE c13 SET v = %d WHERE k = %d", i, i))
+		b.Entries[i].Idempotent = d.idem == "1" || (d.idem == "m" && i != n-1)
+	}
+	if d.polAt != "s" {
+		b = b.RetryPolicy(makePolicy(d.policy))
+	}
+	if d.obs == "q" || d.obs == "o" {
+		b = b.Observer(stmtObs)
+	}
+	if sp != nil {
+		b = b.SpeculativeExecutionPolicy(sp)
+	}
+	return &stmt{b: b, s: s}
+}
+
+// wireKind: what kind of statement the server received.
+func wireKind(req *memcluster.Request) string {
+	switch req.Op {
+	case memcluster.OpQuery:
+		return "q"
+	case memcluster.OpBatch:
+		if req.Frame.Flags&0x04 == 0 && len(req.Frame.Body) > 0 {
+			switch req.Frame.Body[0] {
+			case 0:
+				return "bl"
+			case 1:
+				return "bu"
+			case 2:
+				return "bc"
+			}
+		}
+		return "b?"
+	}
+	return fmt.Sprintf("op%d", req.Op)
+}
+
+func dumpGoroutines(why string) {
+	buf := make([]byte, 1<<20)
+	n := runtime.Stack(buf, true)
+	fmt.Fprintf(os.Stderr, "c13: %s; goroutines:\n%s\n", why, buf[:n])
+}
+
+func runEx(d scenario) (answer string) {
+	defer func() {
+		if e := recover(); e != nil {
+			answer = fmt.Sprintf("crash:%v", e)
+		}
+	}()
+	var ips, order, known []string
+	dead, spare, filtered := map[string]bool{}, map[string]bool{}, map[string]bool{}
 	for _, h := range d.hosts {
 		p := strings.Split(h, ":")
 		ip := "10.0.0." + p[0]
 		order = append(order, ip)
-		if p[1] == "1" && p[2] == "1" {
+		if p[1] != "1" {
+			continue // not a host of the cluster: the policy will offer a SelectedHost whose Info() is nil
+		}
+		known = append(known, ip)
+		switch p[2] {
+		case "1":
 			ips = append(ips, ip)
-		} else {
+		case "f":
+			filtered[ip] = true
+		case "0":
+			dead[ip], spare[ip] = true, true
+		default:
 			dead[ip] = true
 		}
 	}
-	all := append([]string{}, order...)
-	if len(all) == 0 {
-		all = []string{"10.0.0.250"}
-		dead["10.0.0.250"] = true
-	}
+	// one more host, reachable but never offered by the host selection policy: the session can always be created,
+	// also when none (or none reachable) of the scripted hosts exist
+	const anchor = "10.0.0.250"
+	all := append(append([]string{}, known...), anchor)
 	cl := memcluster.NewCluster(4, all...)
-	var attempt int64
+	var reqNo int64
 	var amu sync.Mutex
 	var seen []string
-	var cancel context.CancelFunc
+	cancelCtx := func() {}
 	var sessMu sync.Mutex
 	var theSession *gocql.Session
+	slow := false
+	for _, f := range d.outcomes {
+		if f == "e8" {
+			slow = true
+		}
+	}
 	for ip, n := range cl.Nodes {
 		ip, n := ip, n
 		if dead[ip] {
 			n.DialHook = func(*memcluster.Node, int) error { return errors.New("memcluster: host unreachable") }
 		}
 		n.Handle = func(req *memcluster.Request) {
-			k := int(atomic.AddInt64(&attempt, 1)) - 1
+			k := int(atomic.AddInt64(&reqNo, 1)) - 1
+			tok := fmt.Sprintf("%s@%d", strings.TrimPrefix(ip, "10.0.0."), req.Consistency)
+			if wk := wireKind(req); wk != d.kind {
+				tok += "!" + wk
+			}
 			amu.Lock()
-			seen = append(seen, strings.TrimPrefix(ip, "10.0.0."))
+			seen = append(seen, tok)
 			amu.Unlock()
 			f := "o"
 			if k < len(d.outcomes) {
@@ -216,9 +552,9 @@ func runDo(d doScenario) string {
 			case f == "o":
 				req.Conn.Reply(req.Stream, memcluster.OpResult, memcluster.VoidBody())
 			case f == "l":
-				cancel() // the caller's context ends while the attempt is in flight; no answer
+				cancelCtx() // the caller's context ends while the request is in flight; no answer
 			case f == "e10":
-				// the connection carrying the attempt is closed locally (e.g. node reported DOWN) while the
+				// the connection carrying the request is closed locally (e.g. node reported DOWN) while the
 				// request is outstanding: the frame HAS been written, exec returns ErrConnectionClosed
 				sessMu.Lock()
 				ss := theSession
@@ -231,86 +567,158 @@ func runDo(d doScenario) string {
 					}
 				}
 			default:
-				var kind int
-				fmt.Sscanf(f, "e%d", &kind)
-				if op, body, ok := fateBody(kind); ok {
+				if op, body, ok := fateBody(f); ok {
 					req.Conn.Reply(req.Stream, op, body)
 				}
 			}
 		}
 	}
 	cfg := sess.Config(cl, 4, all...)
-	cfg.Timeout = 40 * time.Millisecond
-	cfg.ConnectTimeout = 300 * time.Millisecond
+	cfg.Timeout = 20 * time.Second
+	if slow {
+		cfg.Timeout = 3 * time.Second // the "never answered" fate ends by the driver's own timer
+	}
+	cfg.ConnectTimeout = 2 * time.Second
 	pol := &scriptPolicy{hosts: map[string]*gocql.HostInfo{}, order: order}
 	cfg.PoolConfig.HostSelectionPolicy = pol
+	cfg.ConvictionPolicy = &lenient{spare: spare}
+	if len(filtered) > 0 {
+		cfg.HostFilter = gocql.HostFilterFunc(func(h *gocql.HostInfo) bool {
+			if filtered[h.ConnectAddress().String()] {
+				pol.AddHost(h) // the session gives this host no pool; the scripted policy offers it all the same
+				return false
+			}
+			return true
+		})
+	}
+	sessObs, stmtObs := &recorder{}, &recorder{}
+	switch d.polAt {
+	case "s":
+		cfg.RetryPolicy = makePolicy(d.policy)
+	case "o":
+		cfg.RetryPolicy = &gocql.SimpleRetryPolicy{NumRetries: 7} // decoy: the statement-level setting must win
+	}
+	if d.obs == "s" || d.obs == "o" {
+		cfg.QueryObserver = sessObs
+		cfg.BatchObserver = sessObs
+	}
 	s, err := cfg.CreateSession()
 	if err != nil {
-		if len(ips) == 0 {
-			return "attempts=- final=noconn" // no host reachable: the session cannot even be created
-		}
 		return "fatal:" + err.Error()
 	}
 	defer s.Close()
 	sessMu.Lock()
 	theSession = s
 	sessMu.Unlock()
-	sess.WaitConns(s, len(ips), time.Second)
+	if !sess.WaitConns(s, len(ips)+1, 20*time.Second) {
+		return "fatal:connections not established"
+	}
 	var ctx context.Context
-	ctx, cancel = context.WithCancel(context.Background())
-	defer cancel()
-	q := s.Query("PING c13").WithContext(ctx).Consistency(gocql.One)
-	if d.idem {
-		q = q.Idempotent(true)
+	ctxErrName := "canceled"
+	switch d.ctx {
+	case "c", "p":
+		c, cf := context.WithCancel(context.Background())
+		defer cf()
+		ctx, cancelCtx = c, cf
+	case "d", "pd":
+		c := newDeadlineCtx()
+		ctx, cancelCtx = c, c.expire
+		ctxErrName = "deadline"
 	}
+	if d.ctx == "p" || d.ctx == "pd" {
+		cancelCtx()
+	}
+	st := buildStmt(s, d, ctx, stmtObs)
+	effObs, decoyObs := (*recorder)(nil), (*recorder)(nil)
 	switch {
-	case d.policy == "none":
-	case strings.HasPrefix(d.policy, "simple:"):
-		var n int
-		fmt.Sscanf(d.policy, "simple:%d", &n)
-		q = q.RetryPolicy(&gocql.SimpleRetryPolicy{NumRetries: n})
-	case strings.HasPrefix(d.policy, "exp:"):
-		var n int
-		fmt.Sscanf(d.policy, "exp:%d", &n)
-		q = q.RetryPolicy(&gocql.ExponentialBackoffRetryPolicy{NumRetries: n, Min: time.Millisecond, Max: 2 * time.Millisecond})
-	case strings.HasPrefix(d.policy, "down:"):
-		var n int
-		fmt.Sscanf(d.policy, "down:%d", &n)
-		lv := make([]gocql.Consistency, n)
-		for i := range lv {
-			lv[i] = gocql.One
+	case d.obs == "q":
+		effObs = stmtObs
+	case d.obs == "o":
+		effObs, decoyObs = stmtObs, sessObs
+	case d.obs == "s" && d.ctor == "s":
+		effObs = sessObs
+	case d.obs == "s":
+		decoyObs = sessObs // package-level NewBatch copies no session defaults
+	}
+	var parts []string
+	anySent := false
+	for rep := 0; rep < d.reps; rep++ {
+		errc := make(chan error, 1)
+		go func() {
+			defer func() {
+				if e := recover(); e != nil {
+					errc <- fmt.Errorf("crash:%v", e)
+				}
+			}()
+			errc <- st.exec(d.api)
+		}()
+		select {
+		case err = <-errc:
+		case <-time.After(watchdog):
+			if atomic.AddInt64(&hung, 1) == 1 {
+				dumpGoroutines("no result after " + watchdog.String() + ": " + d.op())
+			}
+			return strings.Join(append(parts, "hang"), " | ")
 		}
-		q = q.RetryPolicy(&gocql.DowngradingConsistencyRetryPolicy{ConsistencyLevelsToTry: lv})
-	case strings.HasPrefix(d.policy, "custom:"):
-		p := strings.Split(d.policy, ":")
-		var n int
-		fmt.Sscan(p[1], &n)
-		q = q.RetryPolicy(&tablePolicy{limit: n, table: p[2]})
+		fin := ""
+		switch {
+		case err == nil:
+			fin = "ok"
+		case err == context.Canceled:
+			fin = "canceled"
+		case err == context.DeadlineExceeded:
+			fin = "deadline"
+		case err == gocql.ErrNoConnections:
+			fin = "noconn"
+		case err == gocql.ErrUnknownRetryType:
+			fin = "unknownrt"
+		case strings.HasPrefix(err.Error(), "crash:"):
+			return err.Error()
+		default:
+			fin = fmt.Sprintf("err%d", errKind(err))
+		}
+		if (fin == "canceled" || fin == "deadline") && fin != ctxErrName {
+			fin += "!" // not the error of the statement's own context
+		}
+		amu.Lock()
+		sent := "-"
+		if len(seen) > 0 {
+			sent = strings.Join(seen, ",")
+			anySent = true
+		}
+		seen = nil
+		amu.Unlock()
+		n := st.attempts()
+		lat := "+"
+		switch l := st.latency(); {
+		case n == 0 && l == 0:
+			lat = "0"
+		case n == 0:
+			lat = "nonzero-without-attempts"
+		case !anySent:
+			lat = "?" // only attempts that never left the client: their duration may round to zero
+		case l <= 0:
+			lat = "0"
+		}
+		obs := "off"
+		if effObs != nil {
+			obs = "-"
+			if r := effObs.take(); len(r) > 0 {
+				obs = strings.Join(r, ",")
+			}
+		}
+		if decoyObs != nil {
+			if r := decoyObs.take(); len(r) > 0 {
+				obs += "!decoy:" + strings.Join(r, ",")
+			}
+		}
+		parts = append(parts, fmt.Sprintf("sent=%s n=%d lat=%s cons=%d obs=%s final=%s", sent, n, lat, st.consistency(), obs, fin))
 	}
-	err = q.Exec()
-	fin := ""
-	switch {
-	case err == nil:
-		fin = "ok"
-	case err == context.Canceled || err == context.DeadlineExceeded:
-		fin = "logical"
-	case err == gocql.ErrNoConnections:
-		fin = "noconn"
-	case err == gocql.ErrUnknownRetryType:
-		fin = "unknownrt"
-	default:
-		fin = fmt.Sprintf("err%d", errKind(err))
-	}
-	amu.Lock()
-	at := "-"
-	if len(seen) > 0 {
-		at = strings.Join(seen, ",")
-	}
-	amu.Unlock()
-	return fmt.Sprintf("attempts=%s final=%s", at, fin)
+	return strings.Join(parts, " | ")
 }
 
-// runSpec: speculative execution. Every host answers after `delay`; returns the trace op.
+// ---------------------------------------------------------------- speculative execution, event-ordered
+
 func allServerConns(cl *memcluster.Cluster) []*memcluster.ServerConn {
 	var out []*memcluster.ServerConn
 	for _, n := range cl.Nodes {
@@ -319,108 +727,423 @@ func allServerConns(cl *memcluster.Cluster) []*memcluster.ServerConn {
 	return out
 }
 
-func runSpec(idem bool, a int, nhosts int, allGone bool, r *vh.Rng) string {
+func maxExecutions(idem bool, a int) int {
+	if !idem || a == 0 {
+		return 1
+	}
+	return 1 + a
+}
+
+// specStmt builds an idempotent-or-not statement of the given kind with a speculative policy and retry policy.
+func specStmt(s *gocql.Session, kind string, idem string, sp gocql.SpeculativeExecutionPolicy, rp gocql.RetryPolicy) *stmt {
+	if kind == "q" {
+		return &stmt{s: s, q: s.Query("PING spec").Idempotent(idem == "1").SetSpeculativeExecutionPolicy(sp).RetryPolicy(rp)}
+	}
+	b := s.NewBatch(batchType(kind))
+	n := 2
+	for i := 0; i < n; i++ {
+		b.Query(fmt.Sprintf("UPDATE spec SET v = %d WHERE k = %d", i, i))
+		b.Entries[i].Idempotent = idem == "1" || (idem == "m" && i == 0)
+	}
+	return &stmt{s: s, b: b.SpeculativeExecutionPolicy(sp).RetryPolicy(rp)}
+}
+
+// runSpec: every host HOLDS the request it receives. The harness waits (without deciding anything on it) until
+// the executions the policy allows have reached servers, then lets exactly one host answer: that answer must be
+// the caller's result; the number of requests must not exceed the executions allowed. Returns the trace op.
+func runSpec(kind, idem string, a int, nhosts int, allGone bool, r *vh.Rng) string {
 	var ips []string
 	for i := 1; i <= nhosts; i++ {
 		ips = append(ips, fmt.Sprintf("10.0.0.%d", i))
 	}
 	cl := memcluster.NewCluster(4, ips...)
-	var nreq int64
-	var fmu sync.Mutex
-	first := ""
-	var wg sync.WaitGroup
+	var mu sync.Mutex
+	type held struct {
+		ip  string
+		req *memcluster.Request
+	}
+	var arrived []held
+	arrival := make(chan struct{}, 64)
 	for ip, n := range cl.Nodes {
 		ip := ip
-		delay := time.Duration(8+r.Intn(25)) * time.Millisecond
 		n.Handle = func(req *memcluster.Request) {
-			atomic.AddInt64(&nreq, 1)
-			wg.Add(1)
-			go func() {
-				defer wg.Done()
-				time.Sleep(delay)
-				fmu.Lock()
-				if first == "" {
-					first = ip
-				}
-				fmu.Unlock()
-				req.Conn.Reply(req.Stream, memcluster.OpResult, memcluster.RowsBody(
-					[]memcluster.Col{{Name: "h", Type: memcluster.TVarchar}}, [][][]byte{{[]byte(ip)}}, nil, false))
-			}()
+			mu.Lock()
+			arrived = append(arrived, held{ip, req})
+			mu.Unlock()
+			select {
+			case arrival <- struct{}{}:
+			default:
+			}
 		}
 	}
 	cfg := sess.Config(cl, 4, ips...)
-	cfg.Timeout = 500 * time.Millisecond
-	order := append([]string{}, ips...)
-	pol := &scriptPolicy{hosts: map[string]*gocql.HostInfo{}, order: order}
+	cfg.Timeout = 20 * time.Second
+	pol := &scriptPolicy{hosts: map[string]*gocql.HostInfo{}, order: append([]string{}, ips...)}
 	cfg.PoolConfig.HostSelectionPolicy = pol
 	s, err := cfg.CreateSession()
 	if err != nil {
 		return "fatal:" + err.Error()
 	}
 	defer s.Close()
-	sess.WaitConns(s, nhosts, time.Second)
+	if !sess.WaitConns(s, nhosts, 20*time.Second) {
+		return "fatal:connections not established"
+	}
 	if allGone {
 		for _, n := range cl.Nodes {
 			n.DialHook = func(*memcluster.Node, int) error { return errors.New("memcluster: host unreachable") }
 		}
-		for k := 0; k < 200 && len(gocql.VerifSessionConns(s)) > 0; k++ {
+		for k := 0; k < 10000 && len(gocql.VerifSessionConns(s)) > 0; k++ {
 			for _, sc := range allServerConns(cl) {
 				sc.Close()
 			}
 			time.Sleep(2 * time.Millisecond)
 		}
+		if len(gocql.VerifSessionConns(s)) > 0 {
+			return "fatal:connections did not go away"
+		}
 		nhosts = 0
 	}
-	q := s.Query("PING spec").Idempotent(idem).SetSpeculativeExecutionPolicy(
-		&gocql.SimpleSpeculativeExecution{NumAttempts: a, TimeoutDelay: 3 * time.Millisecond})
-	var got string
+	st := specStmt(s, kind, idem, &gocql.SimpleSpeculativeExecution{NumAttempts: a, TimeoutDelay: time.Duration(1+r.Intn(3)) * time.Millisecond}, nil)
 	errc := make(chan error, 1)
-	go func() { errc <- q.Scan(&got) }()
-	err = nil
-	select {
-	case err = <-errc:
-	case <-time.After(5 * time.Second):
-		i := 0
-		if idem {
-			i = 1
+	var got string
+	go func() {
+		if st.q != nil {
+			errc <- st.q.Scan(&got) // the row names the host that answered
+		} else {
+			errc <- st.exec("e")
 		}
-		return fmt.Sprintf("spec %d %d %d %d none hang", i, a, nhosts, atomic.LoadInt64(&nreq))
+	}()
+	// on the unchanged code exactly min(want, nhosts) requests arrive; when want > nhosts the execution that finds
+	// the shared iterator exhausted delivers ErrNoConnections by itself
+	want := maxExecutions(idem == "1", a)
+	// wait for the executions to reach the servers (or for a result that needs no answer); the wait only shapes
+	// the schedule, no verdict depends on it
+	var resErr error
+	haveRes := false
+	grace := time.After(2 * time.Second)
+wait:
+	for {
+		mu.Lock()
+		n := len(arrived)
+		mu.Unlock()
+		if n >= want && want > 0 {
+			break
+		}
+		select {
+		case resErr = <-errc:
+			haveRes = true
+			break wait
+		case <-arrival:
+		case <-grace:
+			break wait
+		}
 	}
-	if err != nil {
-		if err != gocql.ErrNoConnections {
-			return fmt.Sprintf("fatal:%v idem=%v a=%d nhosts=%d conns=%d pool=%v", err, idem, a, nhosts, len(gocql.VerifSessionConns(s)), gocql.VerifPoolState(s))
+	released := "none"
+	if !haveRes {
+		mu.Lock()
+		if len(arrived) > 0 {
+			h := arrived[r.Intn(len(arrived))]
+			released = h.ip
+			if kind == "q" {
+				h.req.Conn.Reply(h.req.Stream, memcluster.OpResult, memcluster.RowsBody(
+					[]memcluster.Col{{Name: "h", Type: memcluster.TVarchar}}, [][][]byte{{[]byte(h.ip)}}, nil, false))
+			} else {
+				h.req.Conn.Reply(h.req.Stream, memcluster.OpResult, memcluster.VoidBody())
+			}
 		}
+		mu.Unlock()
+		select {
+		case resErr = <-errc:
+		case <-time.After(watchdog):
+			dumpGoroutines("speculative statement: no result after " + watchdog.String())
+			mu.Lock()
+			n := len(arrived)
+			mu.Unlock()
+			atomic.AddInt64(&hung, 1)
+			return fmt.Sprintf("spec %s %s %d %d %d 0 %s hang", kind, idem, a, nhosts, n, released)
+		}
+	}
+	result := ""
+	switch {
+	case resErr == nil:
+		// the only answer any server gave is the released one
+		result = released
+		if st.q != nil {
+			result = got
+		}
+	case resErr == gocql.ErrNoConnections:
 		// an execution that found the shared host iterator exhausted completed first
-		got = "noconn"
+		result = "noconn"
+	default:
+		return fmt.Sprintf("fatal:%v kind=%s idem=%v a=%d nhosts=%d conns=%d pool=%v", resErr, kind, idem, a, nhosts, len(gocql.VerifSessionConns(s)), gocql.VerifPoolState(s))
+	}
+	// executions still being launched would have been cancelled with the result; count what did arrive
+	time.Sleep(5 * time.Millisecond)
+	mu.Lock()
+	n := len(arrived)
+	perHost, most := map[string]int{}, 0
+	for _, h := range arrived {
+		perHost[h.ip]++
+		if perHost[h.ip] > most {
+			most = perHost[h.ip]
+		}
+	}
+	mu.Unlock()
+	return fmt.Sprintf("spec %s %s %d %d %d %d %s %s", kind, idem, a, nhosts, n, most, released, result)
+}
+
+// runSpecRetry: idempotent statement, speculative policy with a tiny delay, retry policy, every host answers every
+// request with an error after a tiny pause: the executions retry concurrently, reading and bumping the ONE attempt
+// counter of the statement. Whatever the interleaving, the total number of requests stays within
+// lim + executions (Lean: C13_shared_counter_budget). Returns the trace op.
+func runSpecRetry(kind, policy string, a, nhosts int, fates []string, r *vh.Rng) string {
+	var ips []string
+	for i := 1; i <= nhosts; i++ {
+		ips = append(ips, fmt.Sprintf("10.0.0.%d", i))
+	}
+	cl := memcluster.NewCluster(4, ips...)
+	var nreq int64
+	var wg sync.WaitGroup
+	var pmu sync.Mutex
+	perHost := map[string]int{}
+	pauses := make([]time.Duration, 64)
+	for i := range pauses {
+		pauses[i] = time.Duration(r.Intn(1500)) * time.Microsecond
+	}
+	for ip, n := range cl.Nodes {
+		ip := ip
+		n.Handle = func(req *memcluster.Request) {
+			k := int(atomic.AddInt64(&nreq, 1)) - 1
+			pmu.Lock()
+			perHost[ip]++
+			pmu.Unlock()
+			f := fates[k%len(fates)]
+			wg.Add(1)
+			go func() {
+				defer wg.Done()
+				time.Sleep(pauses[k%len(pauses)])
+				if op, body, ok := fateBody(f); ok {
+					req.Conn.Reply(req.Stream, op, body)
+				}
+			}()
+		}
+	}
+	cfg := sess.Config(cl, 4, ips...)
+	cfg.Timeout = 20 * time.Second
+	pol := &scriptPolicy{hosts: map[string]*gocql.HostInfo{}, order: append([]string{}, ips...)}
+	cfg.PoolConfig.HostSelectionPolicy = pol
+	s, err := cfg.CreateSession()
+	if err != nil {
+		return "fatal:" + err.Error()
+	}
+	defer s.Close()
+	if !sess.WaitConns(s, nhosts, 20*time.Second) {
+		return "fatal:connections not established"
+	}
+	st := specStmt(s, kind, "1", &gocql.SimpleSpeculativeExecution{NumAttempts: a, TimeoutDelay: time.Duration(100+r.Intn(900)) * time.Microsecond}, makePolicy(policy))
+	errc := make(chan error, 1)
+	go func() { errc <- st.exec("e") }()
+	var resErr error
+	select {
+	case resErr = <-errc:
+	case <-time.After(watchdog):
+		dumpGoroutines("speculative statement with retries: no result after " + watchdog.String())
+		atomic.AddInt64(&hung, 1)
+		return fmt.Sprintf("specr %s %s %d %d %d 0 hang", kind, policy, a, nhosts, atomic.LoadInt64(&nreq))
+	}
+	// executions that were not cancelled with the result (a batch's are not) finish their retries: wait until the
+	// request count is quiet (stopping early can only under-count, never raise an alarm)
+	last, quiet := int64(-1), 0
+	for i := 0; i < 400 && quiet < 6; i++ {
+		time.Sleep(5 * time.Millisecond)
+		if v := atomic.LoadInt64(&nreq); v == last {
+			quiet++
+		} else {
+			last, quiet = v, 0
+		}
 	}
 	wg.Wait()
-	time.Sleep(10 * time.Millisecond)
-	fmu.Lock()
-	f := first
-	fmu.Unlock()
-	i := 0
-	if idem {
-		i = 1
+	result := "ok"
+	switch {
+	case resErr == nil:
+	case resErr == gocql.ErrNoConnections:
+		result = "noconn"
+	case resErr == gocql.ErrUnknownRetryType:
+		result = "unknownrt"
+	default:
+		result = fmt.Sprintf("err%d", errKind(resErr))
 	}
-	if f == "" {
-		f = "none"
+	most := 0
+	pmu.Lock()
+	for _, v := range perHost {
+		if v > most {
+			most = v
+		}
 	}
-	return fmt.Sprintf("spec %d %d %d %d %s %s", i, a, nhosts, atomic.LoadInt64(&nreq), f, got)
+	pmu.Unlock()
+	return fmt.Sprintf("specr %s %s %d %d %d %d %s", kind, policy, a, nhosts, atomic.LoadInt64(&nreq), most, result)
 }
+
+// ---------------------------------------------------------------- ops
 
 func exec(op string) string {
 	w := strings.Fields(op)
+	if len(w) == 0 {
+		return "bad-op"
+	}
 	switch w[0] {
-	case "do":
-		return runDo(parseDo(op))
-	case "spec":
+	case "ex":
+		if d, ok := parseEx(op); ok {
+			return runEx(d)
+		}
+	case "spec", "specr":
 		return "accept"
 	case "kf-d10":
 		// SimpleRetryPolicy{1}, query NOT marked idempotent, first attempt fails: is the write sent again?
-		d := doScenario{policy: "simple:1", hosts: []string{"1:1:1", "2:1:1"}, outcomes: []string{"e9", "e9"}, idem: false}
-		return strings.Fields(runDo(d))[0]
+		d := scenario{kind: "q", ctor: "s", policy: "simple:1", polAt: "q", obs: "-", idem: "0", sp: "-", ctx: "-", cons: 1, api: "e", reps: 1,
+			hosts: []string{"1:1:1", "2:1:1"}, outcomes: []string{"e9", "e9"}}
+		var hs []string
+		for _, t := range strings.Split(strings.TrimPrefix(strings.Fields(runEx(d))[0], "sent="), ",") {
+			hs = append(hs, strings.SplitN(t, "@", 2)[0])
+		}
+		return "attempts=" + strings.Join(hs, ",")
 	}
 	return "bad-op"
+}
+
+var consCodes = []int{0, 1, 2, 3, 4, 5, 6, 7, 10}
+
+func genPolicy(r *vh.Rng) string {
+	switch r.Intn(8) {
+	case 0:
+		return "none"
+	case 1, 2:
+		return fmt.Sprintf("simple:%d", r.Intn(4))
+	case 3:
+		return fmt.Sprintf("exp:%d", r.Intn(3))
+	case 4, 5:
+		n := r.Intn(4)
+		if n == 0 {
+			return "down:-"
+		}
+		lv := make([]string, n)
+		for i := range lv {
+			lv[i] = fmt.Sprint(consCodes[r.Intn(len(consCodes))])
+		}
+		return "down:" + strings.Join(lv, ".")
+	}
+	tbl := make([]byte, 11)
+	for j := range tbl {
+		tbl[j] = "rtinnnru"[r.Intn(8)]
+	}
+	return fmt.Sprintf("custom:%d:%s", r.Intn(5), tbl)
+}
+
+func genScenario(r *vh.Rng) scenario {
+	d := scenario{kind: []string{"q", "q", "bl", "bu", "bc"}[r.Intn(5)], ctor: "s", api: "e", reps: 1}
+	if d.kind == "q" {
+		if r.Intn(3) == 0 {
+			d.api = "i"
+		}
+		d.idem = []string{"0", "1"}[r.Intn(2)]
+	} else {
+		if r.Intn(6) == 0 {
+			d.ctor = "n"
+		}
+		d.idem = []string{"0", "1", "1", "m"}[r.Intn(4)]
+	}
+	d.policy = genPolicy(r)
+	d.polAt = []string{"s", "s", "q", "q", "q", "o"}[r.Intn(6)]
+	d.obs = []string{"-", "-", "-", "s", "q", "q", "o"}[r.Intn(7)]
+	d.sp = []string{"-", "-", "-", "0", "1", "2"}[r.Intn(6)]
+	d.ctx = []string{"-", "-", "c", "c", "c", "d", "d", "p", "pd"}[r.Intn(9)]
+	d.cons = consCodes[r.Intn(len(consCodes))]
+	specPath := d.idem == "1" && (d.sp == "1" || d.sp == "2")
+	if specPath && (d.ctx == "p" || d.ctx == "pd") {
+		// with the context done before the start the executor returns ctx.Err() without waiting for its
+		// execution goroutine: what that goroutine gets to do is a race, so it is not predicted here
+		d.ctx = "c"
+	}
+	nh := r.Intn(7)
+	for j := 1; j <= nh; j++ {
+		st := "1:1"
+		switch r.Intn(16) {
+		case 0:
+			st = "0:0"
+		case 1:
+			st = "1:c"
+		case 2:
+			st = "1:0"
+		case 3:
+			st = "1:f"
+		}
+		d.hosts = append(d.hosts, fmt.Sprintf("%d:%s", j, st))
+	}
+	no := r.Intn(9)
+	stubborn := r.Intn(3) == 0 // one failure kind throughout: runs into the policy's budget
+	one := fateTokens[r.Intn(len(fateTokens))]
+	for j := 0; j < no; j++ {
+		switch x := r.Intn(12); {
+		case x == 0 && !stubborn:
+			d.outcomes = append(d.outcomes, "o")
+		case x == 1 && (d.ctx == "c" || d.ctx == "d") && !specPath:
+			d.outcomes = append(d.outcomes, "l")
+		case stubborn:
+			d.outcomes = append(d.outcomes, one)
+		default:
+			d.outcomes = append(d.outcomes, fateTokens[r.Intn(len(fateTokens))])
+		}
+	}
+	custom := strings.HasPrefix(d.policy, "custom")
+	switch r.Intn(24) {
+	case 0:
+		if no > 0 { // one request is never answered (driver timeout)
+			d.outcomes[r.Intn(no)] = "e8"
+		}
+	case 1, 2, 3:
+		if !custom {
+			// the connection dies under the last scripted request; what the pool does next is not scripted,
+			// so nothing may retry on that host and the statement is not executed again
+			d.outcomes = append(d.outcomes, "e10")
+		}
+	}
+	if n := len(d.outcomes); (n == 0 || d.outcomes[n-1] != "e10") && r.Intn(4) == 0 {
+		d.reps = 2
+	}
+	return d
+}
+
+// budgetGrid: every statement kind x observer placement x policy placement x policy family, with more usable hosts
+// and more consecutive failures than any budget allows — the same scenarios for every seed and tier.
+func budgetGrid() []scenario {
+	var out []scenario
+	hosts := []string{"1:1:1", "2:1:1", "3:1:1", "4:1:1", "5:1:1", "6:1:1"}
+	type pf struct {
+		policy string
+		fate   string
+	}
+	for _, kind := range []string{"q", "bl", "bu", "bc"} {
+		for _, obs := range []string{"-", "s", "q"} {
+			for _, polAt := range []string{"s", "q"} {
+				for _, x := range []pf{
+					{"none", "e9"}, {"simple:0", "e9"}, {"simple:1", "e2"}, {"simple:3", "e9b"}, {"exp:2", "e9c"},
+					{"down:-", "e7"}, {"down:4.1", "e7"}, {"down:6.10.0", "e1"}, {"down:2", "e5"}, {"down:3.1", "e9"},
+					{"custom:2:rrrrrrrrrrr", "e9"}, {"custom:3:nnnnnnnnnnn", "e4"},
+				} {
+					d := scenario{kind: kind, ctor: "s", policy: x.policy, polAt: polAt, obs: obs, idem: "1", sp: "-", ctx: "-", cons: 4, api: "e",
+						reps: 1, hosts: hosts}
+					for i := 0; i < 7; i++ {
+						d.outcomes = append(d.outcomes, x.fate)
+					}
+					if kind != "q" && obs == "s" && polAt == "s" {
+						d.reps = 2 // the second execution finds the budget used up: exactly one more request
+					}
+					out = append(out, d)
+				}
+			}
+		}
+	}
+	return out
 }
 
 func main() {
@@ -433,55 +1156,15 @@ func main() {
 	}
 	r := vh.NewRng(vh.EnvSeed())
 	out := vh.NewOut(path)
-	runs := 800
+	runs := 1600
 	if tier == "thorough" {
-		runs = 12000
+		runs = 24000
 	}
-	kinds := []string{"e1", "e2", "e3", "e4", "e5", "e6", "e7", "e8", "e9"}
-	scen := make([]doScenario, runs)
-	for i := range scen {
-		d := doScenario{idem: r.Bool()}
-		switch r.Intn(7) {
-		case 0:
-			d.policy = "none"
-		case 1:
-			d.policy = fmt.Sprintf("simple:%d", r.Intn(4))
-		case 2:
-			d.policy = fmt.Sprintf("exp:%d", r.Intn(3))
-		case 3, 4:
-			d.policy = fmt.Sprintf("down:%d", r.Intn(4))
-		default:
-			tbl := make([]byte, 10)
-			for j := range tbl {
-				tbl[j] = "rtinnnru"[r.Intn(8)]
-			}
-			d.policy = fmt.Sprintf("custom:%d:%s", r.Intn(5), tbl)
-		}
-		nh := r.Intn(5)
-		for j := 1; j <= nh; j++ {
-			up := 1
-			if r.Intn(4) == 0 {
-				up = 0
-			}
-			d.hosts = append(d.hosts, fmt.Sprintf("%d:%d:%d", j, up, up))
-		}
-		no := r.Intn(6)
-		for j := 0; j < no; j++ {
-			switch r.Intn(10) {
-			case 0:
-				d.outcomes = append(d.outcomes, "o")
-			case 1:
-				d.outcomes = append(d.outcomes, "l")
-			default:
-				d.outcomes = append(d.outcomes, kinds[r.Intn(len(kinds))])
-			}
-		}
-		if r.Intn(6) == 0 && !strings.HasPrefix(d.policy, "custom") {
-			d.outcomes = append(d.outcomes, "e10")
-		}
-		scen[i] = d
+	scen := budgetGrid()
+	for i := 0; i < runs; i++ {
+		scen = append(scen, genScenario(r))
 	}
-	results := make([]string, runs)
+	results := make([]string, len(scen))
 	var wgr sync.WaitGroup
 	sem := make(chan struct{}, 12)
 	for i := range scen {
@@ -490,28 +1173,61 @@ func main() {
 		go func(i int) {
 			defer wgr.Done()
 			defer func() { <-sem }()
-			results[i] = runDo(scen[i])
+			if atomic.LoadInt64(&hung) == 0 {
+				results[i] = runEx(scen[i])
+			}
 		}(i)
 	}
 	wgr.Wait()
 	for i, d := range scen {
+		if results[i] == "" {
+			continue // skipped after a hang
+		}
 		if strings.HasPrefix(results[i], "fatal") {
 			fmt.Fprintln(os.Stderr, "c13:", d.op(), results[i])
 		}
-		out.Case(d.op(), results[i], "do/"+strings.SplitN(d.policy, ":", 2)[0], len(d.hosts) > 0)
+		cls := "ex/" + d.kind + "/" + strings.SplitN(d.policy, ":", 2)[0]
+		if d.obs == "-" || (d.obs == "s" && d.ctor == "n") {
+			cls += "/unobserved"
+		} else {
+			cls += "/observed"
+		}
+		out.Case(d.op(), results[i], cls, len(d.hosts) > 0)
 	}
-	for i := 0; i < runs/40; i++ {
-		idem := r.Intn(3) > 0
-		op := runSpec(idem, r.Intn(4), 1+r.Intn(4), r.Intn(5) == 0, r)
+	kinds := []string{"q", "bl", "bu", "bc"}
+	for i := 0; i < runs/64 && atomic.LoadInt64(&hung) == 0; i++ {
+		kind := kinds[r.Intn(len(kinds))]
+		idem := []string{"0", "1", "1", "1"}[r.Intn(4)]
+		if kind != "q" && r.Intn(5) == 0 {
+			idem = "m"
+		}
+		op := runSpec(kind, idem, r.Intn(4), 1+r.Intn(5), r.Intn(6) == 0, r)
 		if strings.HasPrefix(op, "fatal") {
 			fmt.Fprintln(os.Stderr, "c13:", op)
 			os.Exit(3)
 		}
-		cls := "spec/nonidem"
-		if idem {
-			cls = "spec/idem"
+		out.Case(op, "accept", "spec/"+kind+"/idem="+idem, true)
+	}
+	for i := 0; i < runs/64 && atomic.LoadInt64(&hung) == 0; i++ {
+		kind := kinds[r.Intn(len(kinds))]
+		var policy string
+		var fates []string
+		switch r.Intn(4) {
+		case 0:
+			policy, fates = fmt.Sprintf("simple:%d", r.Intn(3)), []string{"e9", "e2", "e9b"}
+		case 1:
+			policy, fates = fmt.Sprintf("exp:%d", r.Intn(3)), []string{"e9"}
+		case 2:
+			policy, fates = "down:"+strings.Repeat("1.", r.Intn(3))+"1", []string{"e1", "e7", "e9", "e5"} // Retry (same host) and RetryNextHost
+		default:
+			policy, fates = fmt.Sprintf("custom:%d:%s", r.Intn(4), "nrnrnrnrnrn"), []string{"e1", "e9", "e7", "e2"}
 		}
-		out.Case(op, "accept", cls, true)
+		op := runSpecRetry(kind, policy, 1+r.Intn(3), 7+r.Intn(3), fates, r)
+		if strings.HasPrefix(op, "fatal") {
+			fmt.Fprintln(os.Stderr, "c13:", op)
+			os.Exit(3)
+		}
+		out.Case(op, "accept", "specr/"+kind+"/"+strings.SplitN(policy, ":", 2)[0], true)
 	}
 	out.Close(nil)
 }
